@@ -55,6 +55,8 @@ struct Slot {
     last_yield: YieldKind,
     alive: bool,
     tid: i32,
+    /// the node has picked up the baton it was granted and has not handed it back yet
+    running: bool,
 }
 
 struct Shared {
@@ -89,6 +91,11 @@ pub fn install_panic_hook() {
         } else {
             "<non-string panic payload>".to_string()
         };
+        // a panic on the harness / scheduler thread is a harness bug: say so on stderr (the
+        // supervisor keeps the tail of a worker's stderr and reports it when the worker dies)
+        if crate::seams::NODE.try_with(|n| n.get()).unwrap_or(-1) < 0 {
+            eprintln!("HARNESS-PANIC at {}:{}: {}", file, line, msg);
+        }
         let _ = LAST_PANIC.try_with(|p| {
             if let Ok(mut p) = p.try_borrow_mut() {
                 *p = Some(PanicInfo { file, line, msg });
@@ -121,12 +128,14 @@ pub fn yield_point(kind: YieldKind) {
     if g.turn == id {
         g.slots[id].st = St::Yielded;
         g.slots[id].last_yield = kind;
+        g.slots[id].running = false;
         g.turn = SCHED;
         shared.sched_cv.notify_one();
     } else if g.slots[id].st == St::Blocked {
         // the scheduler took the baton back while this node slept on a lock: park here
         g.slots[id].st = St::Yielded;
         g.slots[id].last_yield = kind;
+        g.slots[id].running = false;
         shared.sched_cv.notify_one();
     } else {
         return; // not under the scheduler (e.g. during thread start-up)
@@ -134,6 +143,7 @@ pub fn yield_point(kind: YieldKind) {
     while g.turn != id {
         g = cv.wait(g).unwrap_or_else(|e| e.into_inner());
     }
+    g.slots[id].running = true;
 }
 
 /// Called at the *entry* of a seam on a node thread: a node that lost the baton while it slept
@@ -147,15 +157,31 @@ pub fn reacquire_if_lost() {
     }
     g.slots[id].st = St::Yielded;
     g.slots[id].last_yield = YieldKind::Explicit;
+    g.slots[id].running = false;
     shared.sched_cv.notify_one();
     while g.turn != id {
         g = cv.wait(g).unwrap_or_else(|e| e.into_inner());
     }
+    g.slots[id].running = true;
+}
+
+/// Self-test knob for the runtime itself: with SDSIM_FAKE_BLOCKED=<n> every n-th look at a
+/// granted node claims it is asleep, which exercises the false-positive paths of the
+/// blocked-node detection (a node wrongly taken for blocked must still be handled correctly).
+fn fake_blocked() -> Option<u64> {
+    static N: std::sync::OnceLock<Option<u64>> = std::sync::OnceLock::new();
+    *N.get_or_init(|| std::env::var("SDSIM_FAKE_BLOCKED").ok().and_then(|s| s.parse().ok()))
 }
 
 fn thread_is_sleeping(tid: i32) -> bool {
     if tid <= 0 {
         return false;
+    }
+    if let Some(n) = fake_blocked() {
+        static C: std::sync::atomic::AtomicU64 = std::sync::atomic::AtomicU64::new(0);
+        if C.fetch_add(1, std::sync::atomic::Ordering::Relaxed) % n.max(1) == 0 {
+            return true;
+        }
     }
     match std::fs::read_to_string(format!("/proc/self/task/{}/stat", tid)) {
         Ok(s) => {
@@ -203,7 +229,7 @@ impl Runtime {
     pub fn add_node(&mut self) -> usize {
         let id = {
             let mut g = self.shared.m.lock().unwrap_or_else(|e| e.into_inner());
-            g.slots.push(Slot { st: St::Idle, job: None, result: None, last_yield: YieldKind::Explicit, alive: true, tid: 0 });
+            g.slots.push(Slot { st: St::Idle, job: None, result: None, last_yield: YieldKind::Explicit, alive: true, tid: 0, running: false });
             g.slots.len() - 1
         };
         self.cvs.push(Arc::new(Condvar::new()));
@@ -229,7 +255,7 @@ impl Runtime {
         self.stop_node(id);
         {
             let mut g = self.shared.m.lock().unwrap_or_else(|e| e.into_inner());
-            g.slots[id] = Slot { st: St::Idle, job: None, result: None, last_yield: YieldKind::Explicit, alive: true, tid: 0 };
+            g.slots[id] = Slot { st: St::Idle, job: None, result: None, last_yield: YieldKind::Explicit, alive: true, tid: 0, running: false };
         }
         self.spawn_thread(id);
     }
@@ -237,7 +263,14 @@ impl Runtime {
     fn stop_node(&mut self, id: usize) {
         {
             let mut g = self.shared.m.lock().unwrap_or_else(|e| e.into_inner());
-            assert!(matches!(g.slots[id].st, St::Idle | St::Finished), "stop_node on a busy node");
+            assert!(
+                matches!(g.slots[id].st, St::Idle | St::Finished),
+                "stop_node on a busy node: node {} is {:?}, turn {}, all {:?}",
+                id,
+                g.slots[id].st,
+                g.turn as isize,
+                g.slots.iter().map(|s| s.st).collect::<Vec<_>>()
+            );
             g.slots[id].st = St::Exit;
             g.turn = id;
             self.cvs[id].notify_one();
@@ -311,20 +344,23 @@ impl Runtime {
                 g = self.shared.sched_cv.wait(g).unwrap_or_else(|e| e.into_inner());
                 continue;
             }
-            let (ng, to) = self.shared.sched_cv.wait_timeout(g, std::time::Duration::from_millis(5)).unwrap_or_else(|e| e.into_inner());
+            let patience = if fake_blocked().is_some() { std::time::Duration::from_micros(20) } else { std::time::Duration::from_millis(5) };
+            let (ng, to) = self.shared.sched_cv.wait_timeout(g, patience).unwrap_or_else(|e| e.into_inner());
             g = ng;
             if g.turn == SCHED {
                 break;
             }
             if to.timed_out() && self.detect_blocked {
                 // the granted node has not come back: is it asleep in the kernel (futex wait on a
-                // lock of the code under test held by a parked node)? Two consecutive observations.
-                if thread_is_sleeping(g.slots[id].tid) {
+                // lock of the code under test held by a parked node)? Three consecutive observations, 5 ms apart.
+                // only a node that has picked up the baton can be blocked on a lock of the code under
+                // test; one that has not woken up from its own park yet is merely not scheduled
+                if g.slots[id].running && thread_is_sleeping(g.slots[id].tid) {
                     asleep_polls += 1;
                 } else {
                     asleep_polls = 0;
                 }
-                if asleep_polls >= 2 {
+                if asleep_polls >= 3 {
                     g.slots[id].st = St::Blocked;
                     g.turn = SCHED;
                     self.blocked_events += 1;
@@ -394,7 +430,11 @@ fn node_main(shared: Arc<Shared>, cv: Arc<Condvar>, id: usize) {
                 shared.sched_cv.notify_one();
                 return;
             }
-            g.slots[id].job.take()
+            let j = g.slots[id].job.take();
+            if j.is_some() {
+                g.slots[id].running = true;
+            }
+            j
         };
         let Some(job) = job else {
             let mut g = shared.m.lock().unwrap_or_else(|e| e.into_inner());
@@ -406,6 +446,7 @@ fn node_main(shared: Arc<Shared>, cv: Arc<Condvar>, id: usize) {
         let mut g = shared.m.lock().unwrap_or_else(|e| e.into_inner());
         g.slots[id].result = Some(res);
         g.slots[id].st = St::Finished;
+        g.slots[id].running = false;
         if g.turn == id {
             g.turn = SCHED;
         }
